@@ -455,19 +455,19 @@ fn check_b(inp: &Inputs, steps: &[Step], env: &Env) -> Result<(BStats, Option<Fo
         let vars0 = simrun::variables_snapshot(&vars);
         let mut trees: Vec<Option<tree_sitter::Tree>> = inp.sources.iter().map(|s| Some(simrun::parse_python(s))).collect();
         let mut root_ids: Vec<usize> = trees.iter().map(|t| t.as_ref().unwrap().root_node().id()).collect();
-        let mut seen_ids: std::collections::BTreeSet<usize> = root_ids.iter().cloned().collect();
+        let mut seen_ids: std::collections::BTreeSet<usize> = Default::default();
         let mut prev_failed = false;
         let mut th = 0u64;
         for (i, s) in steps2.iter().enumerate() {
             match s {
                 Step::Reparse { tree } => {
+                    seen_ids.extend(alloc::all_node_ids(trees[*tree].as_ref().unwrap()));
                     trees[*tree] = None; // free first so that addresses can be recycled
                     let t = simrun::parse_python(&inp.sources[*tree]);
                     let id = t.root_node().id();
-                    if seen_ids.contains(&id) || root_ids.contains(&id) {
+                    if alloc::all_node_ids(&t).iter().any(|i| seen_ids.contains(i)) {
                         st.recycled += 1;
                     }
-                    seen_ids.insert(id);
                     root_ids[*tree] = id;
                     trees[*tree] = Some(t);
                 }
